@@ -54,7 +54,7 @@ fn family_props(f: &str) -> &'static [&'static str] {
         "A" => &["C01", "C02", "C03", "C07", "C08", "C18"],
         "B" => &["C04", "C15", "C01", "C02", "C18"],
         "C" => &["C05", "C06", "C02", "C18"],
-        "D" => &["C09", "C10", "C14", "C16", "C03"],
+        "D" => &["C09", "C10", "C14", "C16", "C03", "C07"],
         "E" => &["C11", "C01", "C18"],
         "F" => &["C12"],
         "G" => &["C13"],
